@@ -544,6 +544,18 @@ class SeriesP:
         fr, c = self.frame, self.col
         return SBool(_exists(fr, lambda i: z3.And(z3.Not(c.null(i)), _zb(c.at(i)))))
 
+    def not_(self):
+        c = self.col
+        return SeriesP(self.frame, Col(lambda i: _b(Not(c.at(i))), c.null, "bool"), self.name)
+
+    __invert__ = not_
+
+    def alias(self, name):
+        return SeriesP(self.frame, self.col, name)
+
+    def to_frame(self, name=None):
+        return self.frame.derive(cols={name or self.name: self.col}, kind="DataFrame")
+
     def all(self, ignore_nulls=True):
         fr, c = self.frame, self.col
         i = _i()
